@@ -839,7 +839,8 @@ class Evaluator:
             if really_different(lv.mesh, rv.mesh):
                 tag = "MESH[D21]" if (op in UFUNC2) else "MESH"
                 self.fail(f"{tag}: {op} accepted two fields that live on different meshes "
-                          f"(n {list(lv.mesh.n)} / {list(rv.mesh.n)}, pmin {list(lv.mesh.region.pmin)} / {list(rv.mesh.region.pmin)}, "
+                          f"(n {[int(k) for k in lv.mesh.n]} / {[int(k) for k in rv.mesh.n]}, pmin {[float(x) for x in lv.mesh.region.pmin]} / "
+                          f"{[float(x) for x in rv.mesh.region.pmin]}, "
                           f"dims {lv.mesh.region.dims} / {rv.mesh.region.dims})")
             k, l = lv.nvdim, rv.nvdim
             if op != "shl" and k != l and k > 1 and l > 1:
@@ -964,6 +965,20 @@ def cell_eval(node, fields, n, idx):
     return {"add": np.add, "sub": np.subtract, "mul": np.multiply, "div": np.divide, "pow": np.power}[op](x, y)
 
 
+def lift_ok(node, n):
+    """the side condition `LiftOk` of the theorems: no mesh-shaped array-like directly under `<<` / `.angle()`
+    (the constructor reads such an operand as per-cell scalar values, not through trailing-axis broadcasting)"""
+    if node["t"] == "un":
+        return lift_ok(node["e"], n)
+    if node["t"] != "bin":
+        return True
+    if node["op"] in ("shl", "angle"):
+        for side in (node["l"], node["r"]):
+            if side["t"] == "arr" and list(side["shape"]) == list(n):
+                return False
+    return lift_ok(node["l"], n) and lift_ok(node["r"], n)
+
+
 def check_cellwise(case, res, fields, fail):
     n = tuple(int(k) for k in res.mesh.n)
     ops = set(tree_ops(case["expr"]))
@@ -1069,7 +1084,10 @@ def run_impl(case):
             first = first_leaf(case["expr"])
             if first is not None and not (res.mesh == fields[first].mesh and mesh_state(res.mesh)[:6] == mesh_state(fields[first].mesh)[:6]):
                 fail("MESHKEPT: the result does not live on the mesh of its operands")
-            if len(case["meshes"]) == 1:
+            obs["lift_ok"] = lift_ok(case["expr"], [int(k) for k in res.mesh.n])
+            if not obs["lift_ok"]:
+                obs["tags"].append("mesh-shaped-operand-under-shl/angle")
+            if len(case["meshes"]) == 1 and obs["lift_ok"]:
                 check_cellwise(case, res, fields, fail)
                 if res.nvdim >= 2 and not np.isnan(res.array).any():
                     check_stack(res, fail, "the result")
@@ -1172,7 +1190,7 @@ def cmp_meta(name, got, mj, dis):
     if got["valid"] != mj["valid"]:
         k = next(i for i, (a, b) in enumerate(zip(got["valid"], mj["valid"])) if a != b)
         dis.append(f"{name}: validity differs (first at flat cell {k}: impl {got['valid'][k]})")
-    if mj.get("spec") is False:
+    if mj.get("spec") is False and LIFT_OK[0]:
         dis.append(f"{name}: MODEL-INTERNAL the code-shaped model result is not the per-cell specification (theorem eval_cellwise contradicted?)")
     return True
 
@@ -1195,8 +1213,12 @@ def cmp_data_exact(name, got, mj, dis):
             return
 
 
+LIFT_OK = [True]
+
+
 def compare(case, obs, rs):
     dis = []
+    LIFT_OK[0] = obs.get("lift_ok", True)
     r = rs[0]
     name = case["kind"]
     if obs["res"] == "err":
